@@ -119,6 +119,24 @@ fn run_variant(
     (accepted, j.unspecified)
 }
 
+/// Form bodies with characters a decoder or a text layer may treat specially (as raw bytes).
+pub fn special_form_bodies() -> Vec<(&'static str, Vec<u8>)> {
+    vec![
+            ("raw BOM first", "\u{feff}a=1&b=2".as_bytes().to_vec()),
+            ("raw BOM first, single pair", "\u{feff}=1".as_bytes().to_vec()),
+            ("raw BOM in a value", "a=\u{feff}1&b=2".as_bytes().to_vec()),
+            ("raw BOM last", "a=1&b=2\u{feff}".as_bytes().to_vec()),
+            ("escaped BOM first", b"%EF%BB%BFa=1&b=2".to_vec()),
+            ("zero-width space first", "\u{200b}a=1".as_bytes().to_vec()),
+            ("right-to-left mark", "a=\u{200f}1".as_bytes().to_vec()),
+            ("NUL first", b"\x00a=1".to_vec()),
+            ("CR LF last", b"a=1&b=2\r\n".to_vec()),
+            ("LF first", b"\na=1".to_vec()),
+            ("replacement character", "a=\u{fffd}".as_bytes().to_vec()),
+            ("noncharacter U+FFFE", "\u{fffe}a=1".as_bytes().to_vec()),
+        ]
+}
+
 pub fn run(ctx: &Ctx) -> Report {
     crate::env::set_log_mode(crate::env::LOG_OFF);
     // this property's statement says nothing about the key provider: judge outcomes only
@@ -452,6 +470,11 @@ pub fn run(ctx: &Ctx) -> Report {
         // non-empty bodies without a single parameter, and degenerate parameters
         for d in ["&", "&&", "&&&&&&&&", "=", "&=", "=&", "&=&", "==", "a", "a&", "&a", "=&="] {
             big.push((format!("degenerate body {:?}", d), d.as_bytes().to_vec()));
+        }
+        // bodies that begin with, contain or end in characters a decoder or a text layer may treat specially: the
+        // byte-order mark (raw), zero-width and bidirectional marks, NUL, line ends — here they are name / value bytes
+        for (label, body) in special_form_bodies() {
+            big.push((format!("special characters: {}", label), body));
         }
         big.push(("4000 tiny parameters".into(), (0..4000).map(|i| format!("p{:04}=v", i)).collect::<Vec<_>>().join("&").into_bytes()));
         big.push(("20000 x %20 in one value".into(), format!("x={}", "%20".repeat(20_000)).into_bytes()));
